@@ -8,6 +8,9 @@ oracle's own excursion maxima). Relations between executions (shift, inverse, sc
 array b, int vs float input) are evaluated by the driver over the recorded results.
 Workload: complete enumeration of {0..4}^n for the two series functions, {-2..2}^n for the power-law functions, and
 random real / integer / plateau / offset / micro-amplitude series.
+Round 3 (audit items 24-27): purity on the exception path, rejected calls between two in-domain calls, call histories
+f(A); f(B); f(A), options next to the ends of their ranges, silent / constant / strictly one-signed records, the two
+components in different containers.
 """
 import itertools
 import math
@@ -45,15 +48,35 @@ RULE = ('cases = calls of the real functions. Exhaustive A: every non-constant s
         'every second). Wave 5: gen.special_scale records (uniformly tiny < 1e-165 / huge > 1e155, 1e-150 ripple vs 1e150 '
         'spike in one record, ripple on a baseline below float32 resolution, integer counts above 2**24) through the two '
         'series functions; the power-law functions with record and a_ref scaled together by 1e+-165..1e+-200 (cycle count: '
-        'any b; amplitudes: b in [0.8, 1] so that |p|^(1/b) stays a normal double). distinct = digest(series, container); non-trivial = '
-        'non-constant series.')
+        'any b; amplitudes: b in [0.8, 1] so that |p|^(1/b) stays a normal double). Round 3, on every second random case in turn: '
+        '(a) items 19/24 - f(A); f(rejected or out-of-statement input derived from A); f(A) for all six functions: constant / '
+        'all-zero / one-sample / empty / 2-D / NaN / inf records, components of different lengths (ndarray and list), b = None / '
+        '[], a_ref = 0, n_cyc = 0 - arguments judged bit-for-bit on the return AND on the raise path, third result == first; '
+        '(b) item 26 - b in {next double above 0.05, 0.05 + U(0, 0.9e-3), 0.05001, 1 - U(0, 0.95e-3), next double below 1, 1}, '
+        'cut_off in {0, 5e-324, 1e-300, 1e-12, U(0, 1e-4), 0.1 - U(0, 1e-4), next double below 0.1, 0.1}, a_ref = 1e-6..1e6 x '
+        'record maximum, n_cyc = 1e-6..1e8, every second record with one sample 1e3..1e12 times the others; (c) item 27 - '
+        'all-zero records (float64 / int64 / float32 / -0.0 arrays, lists and tuples) through the four power-law functions and '
+        'as either component of gm / combined; constant non-zero records (2..50 samples, every container); strictly one-signed '
+        'non-constant records (offset noise, positive integers, offset sine, free decay; array / list / tuple / int64 / view) '
+        'through all six functions; the two components held as different containers / dtypes (list with ndarray, tuple, '
+        'read-only, non-contiguous, float32 with float64, int64 / int32 / list of ints with float64); (d) item 25 - f(A); f(B); '
+        'f(A) with B of another length (n/2, n-1, n+7, 2n+1; arrays and lists), B = A with two interior samples exchanged, B = A '
+        'with exactly one option changed (a_ref, b, cut_off, n_cyc, scalar <-> array b, second component), non-default options. '
+        'distinct = digest(series, container); non-trivial = non-constant series.')
 ASSUMPTIONS = ['NaN-free real input of any real dtype and container (integers of magnitude <= 2**53 so that the float64 '
-               'oracle holds the same numbers); constant series are not judged',
+               'oracle holds the same numbers); constant series are not judged by the two peak-only series functions (excluded by the '
+               'statement; the clean code raises IndexError). For the power-law functions a constant record is valid input: all-zero '
+               '= no half cycle (cycles and amplitude exactly 0, also as one component of gm / combined), constant c != 0 = one '
+               'half cycle of amplitude |c| (one maximal run of one strict sign)',
                'half-cycle peaks = largest |value| of each maximal run of one strict sign (oracles/peaks.excursions); on '
                'ties the step of a cumulative series may sit at the first or at the last sample attaining the maximum',
                'a peak whose amplitude equals cut_off*max|x| to within 4 ulps may be kept or dropped (the statement does '
                'not fix the side and the product is inexact)',
-               'cases whose powers (|p|/a_ref)^(1/b) or |p|^(1/b) leave [1e-280, 1e280] are counted, not judged',
+               'cases whose powers (|p|/a_ref)^(1/b) or |p|^(1/b) leave [1e-280, 1e280] are counted, not judged; likewise the inverse '
+               'relation when |p|^(1/b)/N = (|p|/N^b)^(1/b), the quotient the amplitude formula forms for N = cycles(a_ref), leaves '
+               'that range (a_ref 1e6 times the record maximum with b next to 0.05 gives N ~ 1e-107)',
+               'inputs the clean code rejects and non-finite records are not judged by value; their arguments must be unchanged '
+               'whether the call returns or raises, and the next in-domain call must reproduce the earlier result bit for bit',
                'conservation sums are compared relative to the total variation (1e-9*TV); power-law values element-wise '
                'relative (1e-9; 1e-6 for b < 0.1): samples before the first counted peak must be exactly 0; the same '
                'tolerances for every dtype (float32 and integer records are judged as the float64 numbers they hold)',
@@ -85,7 +108,12 @@ _MIN_QUICK = {'amp.length': 57000, 'amp.nondecreasing': 57000, 'amp.scales-linea
               'ncyc==reference': 65000, 'option-form==plain-float': 3400, 'pseudo.length': 110000,
               'pseudo.shift-invariant': 51000, 'pseudo.sum==TV/2+offset/2*sign(last move)': 110000,
               'pseudo.zero-off-peaks': 110000, 'result.stable-after-next-call': 1800,
-              'special-scale series driven': 230, 'power-law at extreme scale driven': 240}
+              'special-scale series driven': 230, 'power-law at extreme scale driven': 240,
+              # round 3
+              'args.unchanged-after-raise': 1300, 'result.same-after-rejected-call': 2000,
+              'result.depends-on-arguments-only': 3900, 'edge-parameters driven': 190,
+              'silent-record: cycles==0, amplitude==0': 350, 'combined(x,silent)==amp(x)': 350, 'gm(x,silent)==0': 700,
+              'constant-record: one half cycle': 350, 'one-signed record driven': 170}
 # thorough: the enumerations grow 5x (integer variants at every length), the random part 10x (about half of a run)
 _MIN_THOROUGH = {'amp.length': 520000, 'amp.nondecreasing': 520000, 'amp.scales-linearly': 18000,
                  'amp==reference': 1700000, 'args.unchanged': 2600000, 'array-b column==scalar-b': 24000,
@@ -102,7 +130,12 @@ _MIN_THOROUGH = {'amp.length': 520000, 'amp.nondecreasing': 520000, 'amp.scales-
                  'ncyc==reference': 620000, 'option-form==plain-float': 33000, 'pseudo.length': 840000,
                  'pseudo.shift-invariant': 260000, 'pseudo.sum==TV/2+offset/2*sign(last move)': 840000,
                  'pseudo.zero-off-peaks': 840000, 'result.stable-after-next-call': 18000,
-                 'special-scale series driven': 2300, 'power-law at extreme scale driven': 2400}
+                 'special-scale series driven': 2300, 'power-law at extreme scale driven': 2400,
+                 # round 3
+                 'args.unchanged-after-raise': 12000, 'result.same-after-rejected-call': 18000,
+                 'result.depends-on-arguments-only': 35000, 'edge-parameters driven': 1700,
+                 'silent-record: cycles==0, amplitude==0': 3100, 'combined(x,silent)==amp(x)': 3100, 'gm(x,silent)==0': 6300,
+                 'constant-record: one half cycle': 3100, 'one-signed record driven': 1500}
 MIN_EVALS = {'quick': _MIN_QUICK, 'thorough': _MIN_THOROUGH}
 CTX = None
 
@@ -128,8 +161,18 @@ def _rt(b):
 _CACHE = {}
 
 
-def _domain(values):
-    """(python-float list, oracle excursion peaks) of an in-domain series, else None (not judged)."""
+def _domain(values, const_ok=False):
+    """(python-float list, oracle excursion peaks) of an in-domain series, else None (not judged). Constant (also silent =
+    all-zero) records are in the domain of the power-law functions only (const_ok): the statement excludes them for the
+    two peak-only series, whose final movement is undefined then."""
+    dom = _domain_any(values)
+    if dom is None or (dom[2] and not const_ok):
+        return None
+    return dom[:2]
+
+
+def _domain_any(values):
+    """(python-float list, oracle excursion peaks, is_constant) or None."""
     if isinstance(values, np.ndarray):
         if values.ndim != 1 or values.dtype.kind not in 'iuf' or (values.dtype.kind == 'f' and values.dtype.itemsize not in (4, 8)):
             return None
@@ -151,9 +194,9 @@ def _domain(values):
         if a.ndim == 1 and a.size >= 2 and a.dtype.kind in 'iuf':
             exact = a.dtype.kind == 'f' or int(np.max(np.abs(a.astype(object)))) <= 2 ** 53
             a = a.astype(float)
-            if exact and np.all(np.isfinite(a)) and a.min() != a.max():
+            if exact and np.all(np.isfinite(a)):
                 vals = a.tolist()
-                res = (vals, C.excursion_peaks(vals))
+                res = (vals, C.excursion_peaks(vals), bool(a.min() == a.max()))
     except Exception:
         res = 0
     if len(_CACHE) > 24:
@@ -187,8 +230,10 @@ def _b_ok(bs):
 def _range_ok(peaks, div, bs, lim=280):
     """All powers (|p|/div)^(1/b) representable far from under/overflow (lim decades)."""
     ms = [m for (_f, _l, m) in peaks if m > 0]
-    if not ms or not (div > 0) or not math.isfinite(div):
+    if not (div > 0) or not math.isfinite(div):
         return False
+    if not ms:
+        return True         # silent record: no power is formed
     lo, hi = math.log10(min(ms) / div), math.log10(max(ms) / div)
     return all(-lim <= lo / b and hi / b <= lim for b in bs)
 
@@ -287,9 +332,9 @@ def _ncyc_refs(n, peaks, flags, a_ref, b):
 
 
 def check_ncyc(ctx, values, a_ref, b, cut_off, result):
-    dom = _domain(values)
+    dom = _domain(values, const_ok=True)
     if dom is None:
-        ctx.observe('ncyc: constant / out-of-domain series (not judged)')
+        ctx.observe('ncyc: out-of-domain series (not judged)')
         return
     vals, peaks = dom
     bs, is_arr = _bs(b)
@@ -315,7 +360,7 @@ def check_ncyc(ctx, values, a_ref, b, cut_off, result):
     got2 = got.reshape(n, -1)
     ctx.check(bool(np.all(np.diff(got2, axis=0) >= 0)) and bool(np.all(np.isfinite(got2))), 'ncyc.nondecreasing',
               lambda: W(got=got), 'cycle series decreases or is not finite')
-    gmax = max(m for (_f, _l, m) in peaks)
+    gmax = max([m for (_f, _l, m) in peaks], default=0.0)
     flags = C.keep_flags(peaks, gmax, cut_off)
     for j, bj in enumerate(bs):
         rt = _rt(bj)
@@ -340,9 +385,9 @@ def _amp_refs(n, peak_lists, n_cyc, b):
 
 def _amp_common(ctx, name, values_list, n_cyc, b):
     """Domain handling shared by the three amplitude monitors -> (doms, bs, is_arr) or None."""
-    doms = [_domain(v) for v in values_list]
+    doms = [_domain(v, const_ok=True) for v in values_list]
     if any(d is None for d in doms) or len(set(len(d[0]) for d in doms)) != 1:
-        ctx.observe('%s: constant / out-of-domain series (not judged)' % name)
+        ctx.observe('%s: out-of-domain series / components of different lengths (not judged)' % name)
         return None
     bs, is_arr = _bs(b)
     try:
@@ -507,6 +552,21 @@ def _purity(fname, args, kwargs, pre):
     return False
 
 
+def _onex_for(fname):
+    """Purity on the exception path (audit item 24): a call that raises must leave its arguments as they were."""
+    def onex(args, kwargs, exc, pre):
+        if pre is None or isinstance(exc, (KeyboardInterrupt, SystemExit, MemoryError)):
+            return
+        ps, pk = pre
+        if all(_unchanged(a, sn) for a, sn in zip(args, ps)) and all(_unchanged(kwargs[k], pk[k]) for k in kwargs):
+            CTX.ok('args.unchanged-after-raise')
+            return
+        w = {'fn': 'raised-call', 'fname': fname, 'args': [_restore(a, sn) for a, sn in zip(args, ps)],
+             'kwargs': {k: _restore(kwargs[k], pk[k]) for k in kwargs}, 'raised': repr(exc)}
+        CTX.violation('args.unchanged-after-raise', w, '%s raised %r and left one of its arguments modified' % (fname, exc))
+    return onex
+
+
 def _post_delta(args, kwargs, result, pre):
     if not _purity(DELTA, args, kwargs, pre):
         return
@@ -551,12 +611,12 @@ def install(ctx):
     CTX = ctx
     import eqsig
     pc = eqsig.fns.peaks_and_crossings
-    attach.wrap(pc, DELTA, _post_delta, pre=_pre)
-    attach.wrap(pc, PSEUDO, _post_pseudo, pre=_pre)
-    attach.wrap(eqsig.im, NCYC, _post_ncyc, pre=_pre)
-    attach.wrap(eqsig.im, AMP, _post_amp, pre=_pre)
-    attach.wrap(eqsig.im, GM, _post_gm, pre=_pre)
-    attach.wrap(eqsig.im, COMB, _post_comb, pre=_pre)
+    attach.wrap(pc, DELTA, _post_delta, pre=_pre, on_exception=_onex_for(DELTA))
+    attach.wrap(pc, PSEUDO, _post_pseudo, pre=_pre, on_exception=_onex_for(PSEUDO))
+    attach.wrap(eqsig.im, NCYC, _post_ncyc, pre=_pre, on_exception=_onex_for(NCYC))
+    attach.wrap(eqsig.im, AMP, _post_amp, pre=_pre, on_exception=_onex_for(AMP))
+    attach.wrap(eqsig.im, GM, _post_gm, pre=_pre, on_exception=_onex_for(GM))
+    attach.wrap(eqsig.im, COMB, _post_comb, pre=_pre, on_exception=_onex_for(COMB))
 
 
 # ------------------------------------------------------------------------------------------------ monitored calls
@@ -749,6 +809,10 @@ def rel_inverse(eqsig, ctx, x, a_ref, b, cut_off, at=None):
     if not (Ni > 0 and math.isfinite(Ni)):
         if at is None:
             ctx.violation(clause, W(N=Ni), 'cycles(a_ref) ends at %r for a non-constant series' % Ni)
+        return
+    if not _range_ok(peaks, Ni ** b, [b]):
+        # the amplitude formula forms |p|^(1/b) / N = (|p| / N^b)^(1/b): same range of validity as every other power
+        ctx.observe('inverse: powers |p|^(1/b)/N outside [1e-280,1e280] (not judged)')
         return
     A = _amp(eqsig, ctx, x, Ni, b)
     if A is None or A.shape[0] != n:
@@ -1076,14 +1140,16 @@ def rel_form(eqsig, ctx, label, x, y, a_rel, b, cut_off, n_cyc):
                   % (fname, label, bx[:8].tolist(), rf.ravel()[:8].tolist(), rb.ravel()[:8].tolist()))
 
 
-def rel_b2b(eqsig, ctx, fname, x, px, y, py):
+def rel_b2b(eqsig, ctx, fname, x, px, y, py, tag=None):
     """Two different inputs of one shape back to back: the first result, still held, must not change when the second call
-    runs (no shared scratch buffer), the results must not share memory, and repeating the first call reproduces it."""
+    runs (no shared scratch buffer), the results must not share memory, and repeating the first call reproduces it.
+    tag (round 3, audit item 25): the second input has another shape / is the first with two interior samples exchanged
+    (same length, ends, sum, extreme) / is the same record with exactly one option changed."""
     if fname == NCYC and not (_in_range(ctx, 'back-to-back', [x], px[1], px[0]) and _in_range(ctx, 'back-to-back', [y], py[1], py[0])):
         return
-    if fname == AMP and not _in_range(ctx, 'back-to-back', [x, y], px[1]):
+    if fname == AMP and not (_in_range(ctx, 'back-to-back', [x], px[1]) and _in_range(ctx, 'back-to-back', [y], py[1])):
         return
-    if fname in (GM, COMB) and not _in_range(ctx, 'back-to-back', [x, y], px[2]):
+    if fname in (GM, COMB) and not (_in_range(ctx, 'back-to-back', [x, px[0]], px[2]) and _in_range(ctx, 'back-to-back', [y, py[0]], py[2])):
         return
     r1 = _invoke(eqsig, ctx, fname, x, px)
     if r1 is None:
@@ -1094,8 +1160,10 @@ def rel_b2b(eqsig, ctx, fname, x, px, y, py):
     ok = r1.shape == keep.shape and r1.tobytes() == keep.tobytes()
     ok = ok and (r2 is None or not np.shares_memory(r1, r2))
     ok = ok and r3 is not None and r3.shape == keep.shape and r3.tobytes() == keep.tobytes()
-    ctx.check(ok, 'result.stable-after-next-call', lambda: _wit('rel:b2b', fname=fname, x=x, px=px, y=y, py=py, first=keep, first_after=r1, again=r3),
-              '%s: the result for %s... changed after the next call / is not reproduced' % (fname, np.asarray(x, dtype=float)[:8].tolist()))
+    clause = 'result.stable-after-next-call' if tag is None else 'result.depends-on-arguments-only'
+    ctx.check(ok, clause, lambda: _wit('rel:b2b', fname=fname, x=x, px=px, y=y, py=py, tag=tag, first=keep, first_after=r1, again=r3),
+              '%s: the result for %s... changed after the next call (%s) / is not reproduced'
+              % (fname, np.asarray(x, dtype=float)[:8].tolist(), tag or 'same shape'))
 
 
 def _same(ctx, got, ref, what, wit):
@@ -1143,11 +1211,242 @@ def rel_optform(eqsig, ctx, x, y, a_ref, b, b2, cut_off, n_cyc):
         _same(ctx, _ncyc(eqsig, ctx, x, ai, 1, 0), _ncyc(eqsig, ctx, x, float(ai), 1.0, 0.0), 'ncyc(int a_ref, int b=1, int cut_off=0)', W)
 
 
+# ------------------------------------------------------------------------------ round 3 (audit items 24, 25, 26, 27)
+REJECT_KINDS = {DELTA: ('constant', 'constant-list', 'zeros', 'len1', 'empty', 'nan', 'inf', '2d'),
+                PSEUDO: ('constant', 'constant-list', 'zeros', 'len1', 'empty', 'nan', 'inf', '2d'),
+                NCYC: ('nan', 'inf', '2d', 'b-none', 'b-empty', 'a_ref=0', 'empty'),
+                AMP: ('nan', 'inf', '2d', 'b-none', 'b-empty', 'n_cyc=0', 'empty'),
+                GM: ('short-second', 'long-second', 'short-second-list', 'long-first-list', 'nan-second', 'len1-second', 'b-none'),
+                COMB: ('short-second', 'long-second', 'short-second-list', 'long-first-list', 'nan-second', 'len1-second', 'b-none')}
+
+
+def _rejected_args(fname, x, px, kind):
+    """Arguments of the call the clean code rejects or for which the statement promises nothing (built from the in-domain
+    call (x, px) and the kind only, so that a witness replays)."""
+    xa = np.array(x, dtype=float)
+    n = len(xa)
+    px = list(px)
+    if kind == 'constant':
+        return [np.full(n, xa[0])] + px
+    if kind == 'constant-list':
+        return [[float(xa[0])] * n] + px
+    if kind == 'zeros':
+        return [np.zeros(n)] + px
+    if kind == 'len1':
+        return [xa[:1].copy()] + px
+    if kind == 'empty':
+        return [np.array([], dtype=float)] + px
+    if kind in ('nan', 'inf'):
+        v = xa.copy()
+        v[n // 2] = np.nan if kind == 'nan' else np.inf
+        return [v] + px
+    if kind == '2d':
+        return [np.array([xa, xa])] + px
+    if kind == 'b-none':
+        return [x] + px[:-1] + [None] if fname != NCYC else [x, px[0], None, px[2]]
+    if kind == 'b-empty':
+        return [x] + px[:-1] + [[]] if fname != NCYC else [x, px[0], [], px[2]]
+    if kind in ('a_ref=0', 'n_cyc=0'):
+        return [x, 0.0] + px[1:]
+    ya = np.array(px[0], dtype=float)
+    if kind == 'short-second':
+        return [x, ya[:max(1, n // 2)].copy()] + px[1:]
+    if kind == 'long-second':
+        return [x, np.concatenate([ya, ya[:3]])] + px[1:]
+    if kind == 'short-second-list':
+        return [xa.tolist(), ya[:max(1, n - 1)].tolist()] + px[1:]
+    if kind == 'long-first-list':
+        return [xa.tolist() + [0.5, -0.5], ya.tolist()] + px[1:]
+    if kind == 'nan-second':
+        v = ya.copy()
+        v[n // 3] = np.nan
+        return [x, v] + px[1:]
+    if kind == 'len1-second':
+        return [x, ya[:1].copy()] + px[1:]
+    raise ValueError(kind)
+
+
+def _raw(eqsig, fname):
+    return getattr(eqsig, fname) if fname in (DELTA, PSEUDO) else getattr(eqsig.im, fname)
+
+
+def rel_rejected(eqsig, ctx, fname, x, px, kind):
+    """f(A); f(an input the clean code rejects, or one outside the statement, derived from A); f(A) - audit items 19 / 24.
+    The arguments of the middle call are judged by the purity monitors on both paths (normal return: args.unchanged;
+    raise: args.unchanged-after-raise); its value is not judged. The third result must be the first, bit for bit."""
+    if fname == NCYC and not _in_range(ctx, 'rejected', [x], px[1], px[0]):
+        return
+    if fname == AMP and not _in_range(ctx, 'rejected', [x], px[1]):
+        return
+    if fname in (GM, COMB) and not _in_range(ctx, 'rejected', [x, px[0]], px[2]):
+        return
+    r1 = _invoke(eqsig, ctx, fname, x, px)
+    if r1 is None:
+        return
+    keep = r1.copy()
+    bad = _rejected_args(fname, x, px, kind)
+    f = _raw(eqsig, fname)
+    try:
+        with np.errstate(all='ignore'):
+            f(*bad) if _style() != 1 else f(**dict(zip(NAMES[fname], bad)))
+        ctx.observe('rejected / out-of-statement input (%s): returned' % kind)
+    except Exception:
+        ctx.observe('rejected / out-of-statement input (%s): raised' % kind)
+    r3 = _invoke(eqsig, ctx, fname, x, px)
+    ok = r3 is not None and r1.tobytes() == keep.tobytes() and r3.shape == keep.shape and r3.tobytes() == keep.tobytes()
+    ctx.check(ok, 'result.same-after-rejected-call', lambda: _wit('rel:rejected', fname=fname, x=x, px=px, kind=kind, first=keep, again=r3),
+              '%s: the result for %s... differs after a rejected call (%s) in between' % (fname, np.asarray(x, dtype=float)[:8].tolist(), kind))
+
+
+def _replay_raised(eqsig, ctx, w):
+    try:
+        _raw(eqsig, w['fname'])(*w['args'], **w.get('kwargs', {}))
+    except Exception:
+        pass
+
+
+def _zeros_form(n, zform):
+    return {'f64': np.zeros(n), 'int64': np.zeros(n, dtype=np.int64), 'list-int': [0] * n, 'list-float': [0.0] * n,
+            'tuple-int': (0,) * n, 'negative-zeros': -np.zeros(n), 'float32': np.zeros(n, dtype=np.float32)}[zform]
+
+
+ZERO_FORMS = ('f64', 'int64', 'list-int', 'list-float', 'tuple-int', 'negative-zeros', 'float32')
+
+
+def rel_silent(eqsig, ctx, x, zform, a_ref, n_cyc, b, cut_off):
+    """Silent (all-zero) records are valid input of the power-law functions (audit item 27): no half cycle, hence cycles == 0
+    and amplitude == 0 at every sample; a silent second component adds nothing to the combined amplitude
+    (combined(x, 0) == combined(0, x) == amp(x)) and makes the geometric mean vanish. The monitors judge every call too."""
+    if not (_in_range(ctx, 'silent', [x], b) and _in_range(ctx, 'silent', [x], b, a_ref)):
+        return
+    n = len(x)
+    z = _zeros_form(n, zform)
+    W = lambda **kw: _wit('rel:silent', x=x, zform=zform, a_ref=a_ref, n_cyc=n_cyc, b=b, cut_off=cut_off, **kw)
+    N = _ncyc(eqsig, ctx, z, a_ref, b, cut_off)
+    A = _amp(eqsig, ctx, z, n_cyc, b)
+    if N is not None and A is not None:
+        ok = N.shape[0] == n and A.shape[0] == n and bool(np.all(N == 0)) and bool(np.all(A == 0))
+        ctx.check(ok, 'silent-record: cycles==0, amplitude==0', lambda: W(cycles=N, amp=A),
+                  'silent record of %d samples (%s): cycles %s..., amplitude %s...' % (n, zform, N.ravel()[:5].tolist(), A.ravel()[:5].tolist()))
+    A1 = _amp(eqsig, ctx, x, n_cyc, b)
+    if A1 is None:
+        return
+    rt = max(_rt(v) for v in _bs(b)[0])
+    if not hasattr(b, '__len__'):
+        for which, Ac in (('combined(x,0)', _comb(eqsig, ctx, x, z, n_cyc, b)), ('combined(0,x)', _comb(eqsig, ctx, z, x, n_cyc, b))):
+            if Ac is None:
+                continue
+            ok = Ac.reshape(n, -1).shape == A1.reshape(n, -1).shape and tol.close(Ac.reshape(n, -1), A1.reshape(n, -1),
+                                                                               scale=np.abs(A1.reshape(n, -1)), rtol=rt)
+            ctx.check(ok, 'combined(x,silent)==amp(x)', lambda: W(which=which, combined=Ac, amp=A1),
+                      '%s != amp(x) for a silent component (%s): %s vs %s' % (which, zform, Ac.ravel()[-3:].tolist(), A1.ravel()[-3:].tolist()))
+    for which, G in (('gm(x,0)', _gm(eqsig, ctx, x, z, n_cyc, b)), ('gm(0,x)', _gm(eqsig, ctx, z, x, n_cyc, b))):
+        if G is None:
+            continue
+        ctx.check(G.shape[0] == n and bool(np.all(G == 0)), 'gm(x,silent)==0', lambda: W(which=which, gm=G),
+                  '%s is not zero for a silent component (%s): %s' % (which, zform, G.ravel()[-3:].tolist()))
+
+
+CONST_FORMS = ('f64', 'int64', 'list-int', 'list-float', 'tuple-float', 'float32')
+
+
+def rel_constant(eqsig, ctx, cval, n, form, a_ref, n_cyc, b, cut_off):
+    """A constant non-zero record is one half cycle of amplitude |c| (one maximal run of one strict sign): the cycle count
+    ends at 1/2 (|c|/a_ref)^(1/b), the amplitude at (1/2 |c|^(1/b) / n_cyc)^b, and the two are mutually inverse. The
+    monitors judge all samples (the step may sit at the first or at the last sample of the plateau)."""
+    c = float(cval)
+    x = {'f64': lambda: np.full(n, c), 'int64': lambda: np.full(n, int(c), dtype=np.int64), 'list-int': lambda: [int(c)] * n,
+         'list-float': lambda: [c] * n, 'tuple-float': lambda: (c,) * n, 'float32': lambda: np.full(n, c, dtype=np.float32)}[form]()
+    c = abs(float(np.asarray(x, dtype=float)[0]))
+    bs = _bs(b)[0]
+    if not (_range_ok([(0, n - 1, c)], a_ref, bs) and _range_ok([(0, n - 1, c)], 1.0, bs)):
+        ctx.observe('constant: powers outside [1e-280,1e280] (not judged)')
+        return
+    W = lambda **kw: _wit('rel:constant', cval=cval, n=n, form=form, a_ref=a_ref, n_cyc=n_cyc, b=b, cut_off=cut_off, **kw)
+    N = _ncyc(eqsig, ctx, x, a_ref, b, cut_off)
+    A = _amp(eqsig, ctx, x, n_cyc, b)
+    if N is None or A is None or N.shape[0] != n or A.shape[0] != n:
+        return
+    eN = np.array([0.5 * (c / a_ref) ** (1.0 / v) for v in bs])
+    eA = np.array([(0.5 * c ** (1.0 / v) / n_cyc) ** v for v in bs])
+    rt = max(_rt(v) for v in bs)
+    ok = tol.close(N.reshape(n, -1)[-1], eN, scale=eN, rtol=rt) and tol.close(A.reshape(n, -1)[-1], eA, scale=eA, rtol=rt)
+    ctx.check(ok, 'constant-record: one half cycle', lambda: W(cycles_end=N.reshape(n, -1)[-1], amp_end=A.reshape(n, -1)[-1], expected=[eN, eA]),
+              'constant record %r x %d (%s): final cycles %s expected %s, final amplitude %s expected %s'
+              % (cval, n, form, N.reshape(n, -1)[-1].tolist(), eN.tolist(), A.reshape(n, -1)[-1].tolist(), eA.tolist()))
+    if not hasattr(b, '__len__'):
+        Ni = float(N.reshape(n, -1)[-1, 0])
+        if Ni > 0 and math.isfinite(Ni) and 1e-20 < Ni < 1e20:
+            Ai = _amp(eqsig, ctx, x, Ni, b)
+            if Ai is not None and Ai.shape[0] == n:
+                got = float(Ai.reshape(n, -1)[-1, 0])
+                ctx.check(abs(got - a_ref) <= rt * a_ref, 'inverse(cut_off=0)', lambda: W(N=Ni, amp=got),
+                          'constant record: amp(N=cycles(a_ref=%r)) = %r' % (a_ref, got))
+
+
+MIXED_REAL = ('f64', 'list', 'tuple', 'readonly', 'noncontig', 'float32')
+MIXED_INT = ('int64', 'list-int', 'tuple-int', 'int32', 'f64', 'list')
+
+
+def _one_form(v, label):
+    if label == 'f64':
+        return np.array(v, dtype=float)
+    if label == 'list':
+        return [float(u) for u in v]
+    if label == 'tuple':
+        return tuple(float(u) for u in v)
+    if label == 'readonly':
+        a = np.array(v, dtype=float)
+        a.flags.writeable = False
+        return a
+    if label == 'noncontig':
+        big = np.zeros(3 * len(v))
+        big[1::3] = v
+        return big[1::3]
+    if label == 'float32':
+        return np.asarray(v, dtype=np.float32)
+    if label == 'int64':
+        return np.asarray(v).astype(np.int64)
+    if label == 'int32':
+        return np.asarray(v).astype(np.int32)
+    if label == 'list-int':
+        return [int(u) for u in v]
+    if label == 'tuple-int':
+        return tuple(int(u) for u in v)
+    raise ValueError(label)
+
+
+def rel_mixed(eqsig, ctx, x, y, lx, ly, n_cyc, b):
+    """The two components in DIFFERENT containers / dtypes (list with ndarray, int with float, float32 with float64):
+    judged by the monitors and against the float64 arrays of the numbers the forms hold."""
+    fx, fy = _one_form(x, lx), _one_form(y, ly)
+    bx, by = np.array(fx, dtype=float), np.array(fy, dtype=float)
+    if bx.min() == bx.max() or by.min() == by.max() or not _in_range(ctx, 'mixed', [bx, by], b):
+        ctx.observe('mixed forms: flattened / out-of-range record (skipped)')
+        return
+    n = len(bx)
+    for fname in ((GM,) if hasattr(b, '__len__') else (GM, COMB)):      # array b: documented for gm only
+        rf = _invoke(eqsig, ctx, fname, fx, [fy, n_cyc, b])
+        rb = _invoke(eqsig, ctx, fname, bx, [by, n_cyc, b])
+        if rf is None or rb is None:
+            continue
+        ok = rf.reshape(n, -1).shape == rb.reshape(n, -1).shape and tol.close(rf.reshape(n, -1), rb.reshape(n, -1),
+                                                                             scale=np.abs(rb.reshape(n, -1)), rtol=1e-12)
+        ctx.check(ok, 'container-form==float64-array', lambda: _wit('rel:mixed', x=x, y=y, lx=lx, ly=ly, n_cyc=n_cyc, b=b, fname=fname,
+                                                                    f_form=rf, f_float64=rb),
+                  '%s on components held as %s / %s differs from the float64 arrays of the same numbers' % (fname, lx, ly))
+
+
 RELATIONS = {'rel:enum': lambda e, c, w: rel_enum(e, c, w['fname'], tuple(w['seq']), w['k'], w.get('with_int', True)),
              'rel:shift': lambda e, c, w: rel_shift(e, c, w['fname'], w['x'], w['c']),
              'rel:form': lambda e, c, w: rel_form(e, c, w['label'], w['x'], w['y'], w['a_rel'], w['b'], w['cut_off'], w['n_cyc']),
              'rel:bsizes': lambda e, c, w: rel_bsizes(e, c, w['x'], w['y'], w['a_ref'], w['cut_off'], w['n_cyc'], w['bvec'], w['perm'], w['j']),
-             'rel:b2b': lambda e, c, w: rel_b2b(e, c, w['fname'], w['x'], w['px'], w['y'], w['py']),
+             'rel:b2b': lambda e, c, w: rel_b2b(e, c, w['fname'], w['x'], w['px'], w['y'], w['py'], w.get('tag')),
+             'rel:rejected': lambda e, c, w: rel_rejected(e, c, w['fname'], w['x'], w['px'], w['kind']),
+             'rel:silent': lambda e, c, w: rel_silent(e, c, w['x'], w['zform'], w['a_ref'], w['n_cyc'], w['b'], w['cut_off']),
+             'rel:constant': lambda e, c, w: rel_constant(e, c, w['cval'], w['n'], w['form'], w['a_ref'], w['n_cyc'], w['b'], w['cut_off']),
+             'rel:mixed': lambda e, c, w: rel_mixed(e, c, w['x'], w['y'], w['lx'], w['ly'], w['n_cyc'], w['b']),
+             'raised-call': lambda e, c, w: _replay_raised(e, c, w),
              'rel:optform': lambda e, c, w: rel_optform(e, c, w['x'], w['y'], w['a_ref'], w['b'], w['b2'], w['cut_off'], w['n_cyc']),
              'rel:dtype': lambda e, c, w: rel_dtype(e, c, w['fname'], w['xi'], w['params']),
              'rel:inverse': lambda e, c, w: rel_inverse(e, c, w['x'], w['a_ref'], w['b'], w['cut_off'], w.get('at')),
@@ -1537,6 +1836,219 @@ def micro_block(eqsig, ctx, rng):
                 rel_amp_scale(eqsig, ctx, w, 15.0, b, s)
 
 
+def draw_edge_b(rng):
+    """Exponents within 1e-3 (relative to the admissible range) of its ends 0.05 (open) and 1 (closed)."""
+    k = int(rng.integers(6))
+    if k == 0:
+        return float(np.nextafter(0.05, 1.0))
+    if k == 1:
+        return float(0.05 + rng.uniform(1e-9, 0.95e-3 * 0.95))
+    if k == 2:
+        return 0.05001
+    if k == 3:
+        return float(np.nextafter(1.0, 0.0))
+    if k == 4:
+        return float(1.0 - rng.uniform(0.0, 0.95e-3))
+    return 1.0
+
+
+def draw_edge_cut(rng):
+    """cut_off within 1e-3 of the ends of [0, 0.1] (1e-4 absolute), including the closest doubles."""
+    k = int(rng.integers(8))
+    return [0.0, 5e-324, 1e-300, 1e-12, float(rng.uniform(0, 1e-4)), 0.1, float(np.nextafter(0.1, 0.0)),
+            float(0.1 - rng.uniform(0, 1e-4))][k]
+
+
+def edge_block(eqsig, ctx, rng, c):
+    """Audit item 26: b, cut_off next to the ends of their ranges; a_ref and n_cyc (open-ended ranges) 1e-6..1e6 times the
+    record maximum / 1e-6..1e8. Every second record has one sample 1e3..1e12 times the others, so that a cut_off of 1e-12..1e-4
+    has peaks to drop. Judged by the monitors and the inverse / scaling / two-component relations (tolerances unchanged:
+    all powers stay inside [1e-280, 1e280] or the case is counted, not judged)."""
+    n = int(rng.choice([5, 8, 13, 50, 200]))
+    x, cls, integer = _more_series(rng, n, 15, np.arange(n, dtype=float)) if c % 2 else random_series(rng, n)
+    if x.min() == x.max():
+        return
+    if not integer:
+        x = x * float(10.0 ** rng.uniform(-3, 3))
+    gmax = float(np.max(np.abs(x)))
+    b = draw_edge_b(rng)
+    cut = draw_edge_cut(rng)
+    r = rng.random()
+    rel = float(10.0 ** (rng.uniform(-6, -1) if r < 0.4 else (rng.uniform(1.5, 6) if r < 0.8 else rng.uniform(-1, 1.5))))
+    a_ref = rel * gmax
+    r = rng.random()
+    n_cyc = float(10.0 ** (rng.uniform(-6, -1) if r < 0.4 else (rng.uniform(1.5, 8) if r < 0.8 else rng.uniform(-1, 1.5))))
+    ctx.case(core.digest(x, 'edge', b, cut), nontrivial=True, cls='edge-parameters/%s' % cls)
+    rel_inverse(eqsig, ctx, x, a_ref, b, 0.0)
+    rel_inverse(eqsig, ctx, x, a_ref, b, cut)
+    rel_inverse(eqsig, ctx, x, rel * gmax, draw_b(rng), cut)            # ordinary b, edge cut_off / a_ref
+    rel_inverse(eqsig, ctx, x, gmax * 0.7, b, draw_cut(rng))            # edge b, ordinary cut_off / a_ref
+    rel_identical(eqsig, ctx, x, n_cyc, b)
+    alpha = float(rng.choice([0.5, 3.0, 1e-6, 1e6]))
+    rel_amp_scale(eqsig, ctx, x, n_cyc, b, alpha)
+    rel_ncyc_scale(eqsig, ctx, x, a_ref, b, cut, alpha)
+    y, _c, _i = random_series(rng, n)
+    if y.min() != y.max():
+        y = y * (gmax * float(10.0 ** rng.uniform(-1, 1)) / float(np.max(np.abs(y))))
+        rel_two(eqsig, ctx, x, y, n_cyc, b)
+    bvec = np.array([float(np.nextafter(0.05, 1.0)), b, 1.0, float(np.nextafter(1.0, 0.0)), 0.05001])
+    rel_bcols(eqsig, ctx, x, gmax * float(10.0 ** rng.uniform(-0.5, 0.5)), n_cyc, bvec, cut, int(rng.integers(5)))
+    ctx.ok('edge-parameters driven')
+
+
+def seq_block(eqsig, ctx, x, rng, c):
+    """Audit item 25: f(A); f(B); f(A) with B of another shape, B = A with two interior samples exchanged (same length, ends,
+    sum and extreme: defeats a memo keyed on a few summary numbers), B = A with exactly one option changed - at non-default
+    option values; every call is judged by the monitors, the third must reproduce the first bit for bit."""
+    n = min(len(x), 150)
+    x = np.ascontiguousarray(x[:n])
+    if x.min() == x.max():
+        return
+    gmax = float(np.max(np.abs(x)))
+    b, b2 = draw_b(rng), draw_b(rng)
+    cut = draw_cut(rng)
+    a_ref = gmax * float(10.0 ** rng.uniform(-1, 1.5))
+    n_cyc = float(10.0 ** rng.uniform(-1, 1.5))
+    bv = np.array([b, b2])
+    # B of another shape
+    m = [max(2, n // 2), n + 7, 2 * n + 1, max(2, n - 1)][c % 4]
+    y, _cls, _int = random_series(rng, m)
+    if y.min() == y.max():
+        y[0] += 1.0
+    y = y * (gmax / float(np.max(np.abs(y))))
+    x2 = np.roll(x, 3) * 0.5
+    y2 = np.roll(y, 2) * 0.7
+    if c % 3 == 0:
+        x, y = x.tolist(), y.tolist()
+    for fname, px, py in ((DELTA, [], []), (PSEUDO, [], []), (NCYC, [a_ref, b, cut], [a_ref, b, cut]),
+                          (NCYC, [a_ref, bv, cut], [a_ref, bv, cut]), (AMP, [n_cyc, b], [n_cyc, b]), (AMP, [n_cyc, bv], [n_cyc, bv]),
+                          (GM, [x2, n_cyc, b], [y2, n_cyc, b]), (COMB, [x2, n_cyc, b], [y2, n_cyc, b])):
+        rel_b2b(eqsig, ctx, fname, x, px, y, py, 'other shape')
+    # B = A with two interior samples exchanged
+    xa = np.array(x, dtype=float)
+    if n >= 4:
+        i, j = sorted(int(v) for v in rng.choice(np.arange(1, n - 1), size=2, replace=False)) if n > 4 else (1, 2)
+        imax = int(np.argmax(np.abs(xa)))
+        if xa[i] != xa[j]:
+            z = xa.copy()
+            z[i], z[j] = xa[j], xa[i]
+            for fname, px in ((DELTA, []), (PSEUDO, []), (NCYC, [a_ref, b, cut]), (AMP, [n_cyc, bv]), (COMB, [x2, n_cyc, b])):
+                rel_b2b(eqsig, ctx, fname, xa, px, z, px, 'interior samples exchanged')
+    # the same record (the same object), exactly one option changed
+    for fname, px, py in ((NCYC, [a_ref, b, cut], [a_ref * 1.5, b, cut]), (NCYC, [a_ref, b, cut], [a_ref, b2, cut]),
+                          (NCYC, [a_ref, b, cut], [a_ref, b, 0.0 if cut > 0.05 else 0.1]), (NCYC, [a_ref, b, cut], [a_ref, bv, cut]),
+                          (AMP, [n_cyc, b], [n_cyc * 2.0, b]), (AMP, [n_cyc, b], [n_cyc, b2]), (AMP, [n_cyc, bv], [n_cyc, b]),
+                          (GM, [x2, n_cyc, b], [x2, n_cyc * 0.5, b]), (COMB, [x2, n_cyc, b], [x2, n_cyc, b2]),
+                          (COMB, [x2, n_cyc, b], [x2 * 2.0, n_cyc, b])):
+        rel_b2b(eqsig, ctx, fname, x, px, x, py, 'one option changed')
+
+
+def rejected_block(eqsig, ctx, x, rng, c):
+    """Audit items 19 / 24: a rejected or out-of-statement call between two in-domain calls, every function."""
+    n = min(len(x), 100)
+    x = np.ascontiguousarray(x[:n])
+    if x.min() == x.max() or n < 3:
+        return
+    gmax = float(np.max(np.abs(x)))
+    b = draw_b(rng)
+    cut = draw_cut(rng)
+    a_ref = gmax * float(10.0 ** rng.uniform(-1, 1.5))
+    n_cyc = float(10.0 ** rng.uniform(-1, 1.5))
+    x2 = np.roll(x, 2) * 0.6
+    cont = x.tolist() if c % 5 == 0 else x
+    for fname, px in ((DELTA, []), (PSEUDO, []), (NCYC, [a_ref, b, cut]), (AMP, [n_cyc, b]), (GM, [x2, n_cyc, b]), (COMB, [x2, n_cyc, b])):
+        kinds = REJECT_KINDS[fname]
+        for kind in (kinds[c % len(kinds)], kinds[(c + 3) % len(kinds)]):
+            rel_rejected(eqsig, ctx, fname, cont, px, kind)
+
+
+def one_signed(rng, n):
+    """Strictly one-signed, non-constant record (no zero, no sign change): one half cycle."""
+    k = int(rng.integers(4))
+    if k == 0:
+        x = np.abs(rng.normal(size=n)) + float(rng.choice([0.01, 0.5, 10.0]))
+    elif k == 1:
+        x = rng.integers(1, 9, size=n).astype(float)
+    elif k == 2:
+        x = 2.0 + np.sin(np.arange(n) * rng.uniform(0.1, 2.0))
+    else:
+        x = np.exp(-np.arange(n) * rng.uniform(0.01, 0.3)) * (1.0 + 0.3 * np.cos(np.arange(n) * 1.3))       # free decay released from an offset
+    if x.min() == x.max():
+        x[int(rng.integers(n))] += 1.0
+    integer = k == 1
+    return x * float(rng.choice([-1.0, 1.0])), integer
+
+
+def silent_block(eqsig, ctx, x, rng, c):
+    """Audit item 27: silent (all-zero) records and components, constant non-zero records, strictly one-signed records
+    (array / list / tuple), and the two components of gm / combined held in different containers."""
+    n = min(len(x), 120)
+    x = np.ascontiguousarray(x[:n])
+    if x.min() == x.max():
+        return
+    gmax = float(np.max(np.abs(x)))
+    b = draw_b(rng)
+    cut = draw_cut(rng) if c % 2 else 0.0
+    a_ref = gmax * float(10.0 ** rng.uniform(-1, 1.5))
+    n_cyc = float(10.0 ** rng.uniform(-1, 1.5))
+    bv = np.array([b, draw_b(rng), 1.0])
+    rel_silent(eqsig, ctx, x, ZERO_FORMS[c % len(ZERO_FORMS)], a_ref, n_cyc, b, cut)
+    rel_silent(eqsig, ctx, x, ZERO_FORMS[(c + 2) % len(ZERO_FORMS)], a_ref, n_cyc, bv, cut)
+    form = CONST_FORMS[c % len(CONST_FORMS)]
+    cval = float(rng.integers(1, 90)) * float(rng.choice([-1.0, 1.0]))
+    if form in ('f64', 'list-float', 'tuple-float') and rng.random() < 0.7:
+        cval = float(rng.normal()) * float(10.0 ** rng.uniform(-6, 6)) or 1.0
+    m = int(rng.choice([2, 3, 7, 50]))
+    rel_constant(eqsig, ctx, cval, m, form, abs(cval) * float(10.0 ** rng.uniform(-1, 1.5)), n_cyc, b, cut)
+    rel_constant(eqsig, ctx, cval, m, form, abs(cval) * float(10.0 ** rng.uniform(-1, 1.5)), n_cyc, bv, cut)
+    # strictly one-signed records through all six functions
+    w, integer = one_signed(rng, int(rng.choice([2, 3, 5, 13, 60])))
+    if not integer:
+        w = w * float(10.0 ** rng.uniform(-3, 3))
+    k = c % 4
+    cont = w if k == 0 else (w.tolist() if k == 1 else (tuple(w.tolist()) if k == 2 else (w.astype(np.int64) if integer else w[::-1].copy()[::-1])))
+    if integer and k in (1, 2):
+        cont = type(cont)(int(v) for v in cont)
+    ctx.case(core.digest(w, 'one-signed', k), nontrivial=True, cls='one-signed/%s' % ('int' if integer else 'real'))
+    wmax = float(np.max(np.abs(w)))
+    series_block(eqsig, ctx, w, cont, integer, rng)
+    aw = wmax * float(10.0 ** rng.uniform(-1, 1.5))
+    rel_inverse(eqsig, ctx, cont, aw, b, 0.0)
+    rel_inverse(eqsig, ctx, cont, aw, b, cut)
+    rel_identical(eqsig, ctx, cont, n_cyc, b)
+    rel_bcols(eqsig, ctx, cont, aw, n_cyc, bv, cut, int(rng.integers(3)))
+    w2, _i2 = one_signed(rng, len(w))
+    rel_two(eqsig, ctx, cont, w2 * wmax, n_cyc, b)
+    ctx.ok('one-signed record driven')
+    # the two components in different containers / dtypes
+    y, _cls, yint = random_series(rng, n)
+    if y.min() == y.max():
+        return
+    xint = bool(np.all(x == np.round(x))) and gmax < 2 ** 31
+    if xint and yint:
+        forms = MIXED_INT
+    else:
+        forms = MIXED_REAL
+        y = y * (gmax * float(10.0 ** rng.uniform(-1, 1)) / float(np.max(np.abs(y))))
+    lx = forms[c % len(forms)]
+    ly = forms[(c + 1 + c // len(forms) % (len(forms) - 1)) % len(forms)]
+    if lx != ly:
+        rel_mixed(eqsig, ctx, x, y, lx, ly, n_cyc, b)
+        rel_mixed(eqsig, ctx, x, y, ly, lx, n_cyc, bv if c % 2 else b)
+
+
+def round3_block(eqsig, ctx, x, rng, c):
+    k = c % 4
+    if k == 0:
+        rejected_block(eqsig, ctx, x, rng, c // 4)
+    elif k == 1:
+        edge_block(eqsig, ctx, rng, c // 4)
+    elif k == 2:
+        silent_block(eqsig, ctx, x, rng, c // 4)
+    else:
+        seq_block(eqsig, ctx, x, rng, c // 4)
+
+
 def run_shard(ctx):
     warnings.simplefilter('ignore')
     eqsig = core.import_eqsig()
@@ -1612,6 +2124,8 @@ def run_shard(ctx):
             audit_block(eqsig, ctx, x, integer, rng, c // 3)
         if c % 6 == 2:
             extreme_block(eqsig, ctx, rng)
+        if c % 2 == 1:
+            round3_block(eqsig, ctx, x, rng, c // 2)
     if not quick or ctx.shard % 4 == 0:
         long_block(eqsig, ctx, rng)
     if ctx.shard % 8 == 1 or (not quick and ctx.shard % 2 == 1):
